@@ -1,8 +1,17 @@
 import Slock.Proofs.Engine2Frame
-/-! Stage-2 engine: the frame relation `Fr w w'` — what EVERY helper of an operation respects: the key it works on, the
-leader flag, the clock, "replies are only appended", "a reclaimed record stays reclaimed", and "off-leader nothing is pushed
-to the journal". Composite helpers are chains of such steps. -/
+/-! Stage-2 engine: two step relations on the working state of an operation.
+
+* `Fr w w'` — what EVERY helper respects: the key it works on, the leader flag, the clock, "replies are only appended", "a
+  reclaimed record stays reclaimed", and "off-leader nothing is pushed to the journal".
+* `Qt w w'` — a QUIET step: no reply, and the value cell is untouched up to its journalling bit, `locked` too. Every helper
+  except `reply`, `procData` (the value operation), `removeIfZero` (a reclaimed record loses its cell) and the grants is quiet.
+
+Composite helpers are chains of such steps. -/
 namespace Slock.Engine2
+open Slock.Value (Cell getLockData)
+
+/-- the key record was unlinked from the database (`RemoveLockManager` ran, or it never existed) -/
+def W.Reclaimed (w : W) : Prop := w.gone = true ∧ w.db.hasKey w.k.key = false
 
 structure Fr (w w' : W) : Prop where
   key : w'.k.key = w.k.key
@@ -11,65 +20,164 @@ structure Fr (w w' : W) : Prop where
   aof : w.db.leader = false → w'.db.aofOut = w.db.aofOut
   out : ∃ more, w'.out = w.out ++ more
   gone : w.gone = true → w'.gone = true
+  recl : w.Reclaimed → w'.Reclaimed
 
-theorem Fr.refl (w : W) : Fr w w := ⟨rfl, rfl, rfl, fun _ => rfl, ⟨[], by simp⟩, id⟩
+theorem Fr.refl (w : W) : Fr w w := ⟨rfl, rfl, rfl, fun _ => rfl, ⟨[], by simp⟩, id, id⟩
 
 theorem Fr.trans {a b c : W} (h1 : Fr a b) (h2 : Fr b c) : Fr a c := by
-  refine ⟨h2.key.trans h1.key, h2.leader.trans h1.leader, h2.now.trans h1.now, ?_, ?_, fun h => h2.gone (h1.gone h)⟩
+  refine ⟨h2.key.trans h1.key, h2.leader.trans h1.leader, h2.now.trans h1.now, ?_, ?_, fun h => h2.gone (h1.gone h),
+    fun h => h2.recl (h1.recl h)⟩
   · intro h; rw [h2.aof (by rw [h1.leader]; exact h), h1.aof h]
   · obtain ⟨m1, e1⟩ := h1.out
     obtain ⟨m2, e2⟩ := h2.out
     exact ⟨m1 ++ m2, by rw [e2, e1, List.append_assoc]⟩
 
-/-- replacing the key record by one with the same key -/
-theorem Fr.setK (w : W) (k' : Key) (h : k'.key = w.k.key) : Fr w { w with k := k' } :=
-  ⟨h, rfl, rfl, fun _ => rfl, ⟨[], by simp⟩, id⟩
+structure Qt (w w' : W) : Prop where
+  out : w'.out = w.out
+  cell : vstrip w'.k.cell = vstrip w.k.cell
+  locked : w'.k.locked = w.k.locked
+  gone : w'.gone = w.gone
 
+theorem Qt.refl (w : W) : Qt w w := ⟨rfl, rfl, rfl, rfl⟩
+theorem Qt.trans {a b c : W} (h1 : Qt a b) (h2 : Qt b c) : Qt a c :=
+  ⟨h2.out.trans h1.out, h2.cell.trans h1.cell, h2.locked.trans h1.locked, h2.gone.trans h1.gone⟩
+theorem Qt.lockData {a b : W} (h : Qt a b) : b.lockData = a.lockData := getLockData_congr h.cell
+
+/-- both at once -/
+structure FQ (w w' : W) : Prop where
+  fr : Fr w w'
+  qt : Qt w w'
+theorem FQ.refl (w : W) : FQ w w := ⟨Fr.refl w, Qt.refl w⟩
+theorem FQ.trans {a b c : W} (h1 : FQ a b) (h2 : FQ b c) : FQ a c := ⟨h1.fr.trans h2.fr, h1.qt.trans h2.qt⟩
+
+/-! ### generic steps -/
+
+/-- editing the key record by a function that keeps key, cell and `locked` -/
+theorem FQ.modK (w : W) (f : Key → Key) (hk : (f w.k).key = w.k.key) (hc : (f w.k).cell = w.k.cell) (hl : (f w.k).locked = w.k.locked) :
+    FQ w (w.modK f) :=
+  ⟨⟨hk, rfl, rfl, fun _ => rfl, ⟨[], by simp⟩, id, fun h => ⟨h.1, by simpa [hk] using h.2⟩⟩, ⟨rfl, by simp [hc], hl, rfl⟩⟩
+theorem FQ.modR (w : W) (rid : Nat) (f : Rec → Rec) : FQ w (w.modR rid f) :=
+  ⟨⟨rfl, rfl, rfl, fun _ => rfl, ⟨[], by simp⟩, id, id⟩, ⟨rfl, rfl, rfl, rfl⟩⟩
+theorem FQ.ref (w : W) (rid : Nat) : FQ w (w.ref rid) := FQ.modR _ _ _
+theorem FQ.when (w : W) (b : Bool) (f : W → W) (h : FQ w (f w)) : FQ w (w.when b f) := by
+  cases b
+  · exact FQ.refl _
+  · exact h
+theorem Fr.when (w : W) (b : Bool) (f : W → W) (h : Fr w (f w)) : Fr w (w.when b f) := by
+  cases b
+  · exact Fr.refl _
+  · exact h
+theorem FQ.ctr (w : W) (f : Counters → Counters) : FQ w (w.ctr f) :=
+  ⟨⟨rfl, rfl, rfl, fun _ => rfl, ⟨[], by simp⟩, id, id⟩, ⟨rfl, rfl, rfl, rfl⟩⟩
+theorem FQ.bumpErr (w : W) : FQ w w.bumpErr := FQ.ctr _ _
 theorem Fr.reply (w : W) (c : Cmd) (a b : Nat) (d : Option Bytes) : Fr w (w.reply c a b d) :=
-  ⟨rfl, rfl, rfl, fun _ => rfl, ⟨_, rfl⟩, id⟩
-theorem Fr.ctr (w : W) (f : Counters → Counters) : Fr w (w.ctr f) := ⟨rfl, rfl, rfl, fun _ => rfl, ⟨[], by simp⟩, id⟩
-theorem Fr.bumpErr (w : W) : Fr w w.bumpErr := Fr.ctr _ _
+  ⟨rfl, rfl, rfl, fun _ => rfl, ⟨_, rfl⟩, id, id⟩
 
-theorem Fr.removeIfZero (w : W) : Fr w w.removeIfZero :=
-  ⟨by simp, by simp, by simp, fun _ => by simp, ⟨[], by simp⟩, removeIfZero_gone_mono w⟩
+/-- editing only `locked` -/
+theorem Fr.modLocked (w : W) (f : Key → Key) (hk : (f w.k).key = w.k.key) : Fr w (w.modK f) :=
+  ⟨hk, rfl, rfl, fun _ => rfl, ⟨[], by simp⟩, id, fun h => ⟨h.1, by simpa [hk] using h.2⟩⟩
+
+theorem Fr.removeIfZero (w : W) : Fr w w.removeIfZero := by
+  refine ⟨by simp, by simp, by simp, fun _ => by simp, ⟨[], by simp⟩, removeIfZero_gone_mono w, ?_⟩
+  intro h
+  have : w.removeIfZero = w := by unfold W.removeIfZero; simp [h.1]
+  rw [this]; exact h
+
+/-- when `removeIfZero` fires, the record is unlinked -/
+theorem removeIfZero_reclaimed (w : W) (h : w.removeIfZero.gone = true) (h0 : w.gone = false) : w.removeIfZero.Reclaimed := by
+  rcases removeIfZero_cases w with e | ⟨hg, _, _, _, hd⟩
+  · rw [e] at h; simp [h0] at h
+  · exact ⟨hg, by rw [hd, removeIfZero_key]; exact hasKey_dropKey _ _⟩
+
+theorem procData_keys (w : W) (ct : Slock.Value.CmdType) (c : Cmd) (f : Option Bytes) (rid : Nat) :
+    (w.procData ct c f rid).db.keys = w.db.keys := by
+  unfold W.procData; split
+  · rfl
+  · simp only []; split <;> rfl
+
+theorem hasKey_congr {a b : DB} (h : a.keys = b.keys) (n : Nat) : a.hasKey n = b.hasKey n := by
+  unfold DB.hasKey DB.findKey; rw [h]
+
+theorem Fr.procData (w : W) (ct : Slock.Value.CmdType) (c : Cmd) (f : Option Bytes) (rid : Nat) : Fr w (w.procData ct c f rid) :=
+  ⟨by simp, by simp, by simp, fun _ => by simp, ⟨[], by simp⟩, fun h => by simpa using h,
+   fun h => ⟨by simpa using h.1, by rw [hasKey_congr (procData_keys w ct c f rid), procData_key]; exact h.2⟩⟩
+
+/-! ### journalling -/
+
+theorem FQ.pushLockAof (w : W) (rid flag : Nat) : FQ w (w.pushLockAof rid flag) := by
+  unfold W.pushLockAof
+  split
+  · exact FQ.refl _
+  · rename_i hl
+    simp only []
+    split
+    · exact ⟨⟨rfl, rfl, rfl, fun _ => rfl, ⟨[], by simp⟩, id, id⟩, ⟨rfl, rfl, rfl, rfl⟩⟩
+    · refine ⟨⟨by simp, rfl, rfl, ?_, ⟨[], by simp⟩, id, ?_⟩, ⟨rfl, by simpa using aofLockData_vstrip w.k true rid, by simp, rfl⟩⟩
+      · intro h; simp [h] at hl
+      · intro h; exact ⟨h.1, by simpa [DB.hasKey, DB.findKey] using h.2⟩
+
+theorem FQ.pushLockAofN (n : Nat) (w : W) (rid : Nat) : FQ w (W.pushLockAofN n w rid) := by
+  induction n generalizing w with
+  | zero => exact FQ.refl _
+  | succ n ih => unfold W.pushLockAofN; exact (FQ.pushLockAof w rid 0).trans (ih _)
+
+theorem FQ.pushUnLockAof (w : W) (rid : Nat) (lc : Cmd) (fa ia : Bool) (flag : Nat) : FQ w (w.pushUnLockAof rid lc fa ia flag) := by
+  unfold W.pushUnLockAof
+  split
+  · exact FQ.refl _
+  · rename_i hl
+    split
+    · exact ⟨⟨rfl, rfl, rfl, fun _ => rfl, ⟨[], by simp⟩, id, id⟩, ⟨rfl, rfl, rfl, rfl⟩⟩
+    · refine ⟨⟨by simp, rfl, rfl, ?_, ⟨[], by simp⟩, id, ?_⟩, ⟨rfl, by simpa using aofLockData_vstrip w.k false rid, by simp, rfl⟩⟩
+      · intro h; simp [h] at hl
+      · intro h; exact ⟨h.1, by simpa [DB.hasKey, DB.findKey] using h.2⟩
+
+theorem FQ.journalLock (w : W) (rid flag : Nat) : FQ w (w.journalLock rid flag) := FQ.when _ _ _ (FQ.pushLockAof _ _ _)
+theorem FQ.journalUnlock (w : W) (rid : Nat) (fa ia : Bool) (flag : Nat) : FQ w (w.journalUnlock rid fa ia flag) :=
+  FQ.when _ _ _ (FQ.pushUnLockAof _ _ _ _ _ _)
+
+/-! ### wheels and records -/
+
+theorem FQ.addTimeOut (w : W) (rid : Nat) : FQ w (w.addTimeOut rid) :=
+  ⟨⟨rfl, rfl, rfl, fun _ => rfl, ⟨[], by simp [W.addTimeOut]⟩, id, id⟩, ⟨rfl, rfl, rfl, rfl⟩⟩
+theorem FQ.schedExpried (w : W) (rid : Nat) : FQ w (w.schedExpried rid) :=
+  ⟨⟨rfl, rfl, rfl, fun _ => rfl, ⟨[], by simp [W.schedExpried]⟩, id, id⟩, ⟨rfl, rfl, rfl, rfl⟩⟩
+theorem FQ.addExpried (w : W) (rid : Nat) : FQ w (w.addExpried rid) := by
+  unfold W.addExpried
+  exact (FQ.schedExpried w rid).trans (FQ.when _ _ _ (FQ.pushLockAofN _ _ _))
+theorem FQ.removeLongT (w : W) (rid : Nat) : FQ w (w.removeLongT rid) := FQ.modK _ _ rfl rfl rfl
+theorem FQ.removeLongE (w : W) (rid : Nat) : FQ w (w.removeLongE rid) := FQ.modK _ _ rfl rfl rfl
+theorem FQ.dropLongT (w : W) (rid : Nat) : FQ w (w.dropLongT rid) := FQ.when _ _ _ (FQ.removeLongT _ _)
+theorem FQ.dropLongE (w : W) (rid : Nat) : FQ w (w.dropLongE rid) := FQ.when _ _ _ (FQ.removeLongE _ _)
+
+theorem FQ.newLock (w : W) (c : Cmd) (d : Option Bytes) : FQ w (w.newLock c d).1 :=
+  ⟨⟨rfl, rfl, rfl, fun _ => rfl, ⟨[], by simp [W.newLock]⟩, id, id⟩, ⟨rfl, rfl, rfl, rfl⟩⟩
+
+@[simp] theorem Key.addLock_key (k : Key) (r : Rec) : (k.addLock r).key = k.key := by unfold Key.addLock; split <;> simp
+@[simp] theorem Key.addLock_cell (k : Key) (r : Rec) : (k.addLock r).cell = k.cell := by unfold Key.addLock; split <;> simp
+@[simp] theorem Key.addLock_locked (k : Key) (r : Rec) : (k.addLock r).locked = k.locked := by unfold Key.addLock; split <;> simp
+theorem FQ.addLock (w : W) (rid : Nat) : FQ w (w.addLock rid) := FQ.modK _ _ (by simp) (by simp) (by simp)
+
+@[simp] theorem settleWait_key (k : Key) : k.settleWait.key = k.key := by unfold Key.settleWait; split <;> simp [clearWaited]
+@[simp] theorem settleWait_cell (k : Key) : k.settleWait.cell = k.cell := by unfold Key.settleWait; split <;> simp [clearWaited]
+@[simp] theorem settleWait_locked (k : Key) : k.settleWait.locked = k.locked := by unfold Key.settleWait; split <;> simp [clearWaited]
+
+theorem FQ.updateLocked (w : W) (rid : Nat) (c : Cmd) : FQ w (w.updateLocked rid c) := by
+  unfold W.updateLocked
+  simp only []
+  refine FQ.trans ?_ (FQ.modR _ _ _)
+  refine FQ.trans (FQ.modK w (·.setRec (updRec w.db w.k rid c)) rfl rfl rfl) ?_
+  refine FQ.when _ _ _ ?_
+  exact ((FQ.removeLongE _ _).trans (FQ.addExpried _ _)).trans (FQ.ref _ _)
+
+/-! ### freeing: quiet unless the key record is reclaimed -/
+
+theorem Fr.freeCheck (w : W) (rid : Nat) : Fr w (w.freeCheck rid) :=
+  (FQ.modK w _ (by simp) (by simp) (by simp)).fr.trans (Fr.removeIfZero _)
 
 theorem Fr.unrefCheck (w : W) (rid : Nat) : Fr w (w.unrefCheck rid) := by
   unfold W.unrefCheck
-  simp only []
-  split
-  · exact (Fr.setK w _ (by simp)).trans (Fr.removeIfZero _)
-  · exact Fr.setK w _ (by simp)
-
-theorem Fr.procData (w : W) (ct : Slock.Value.CmdType) (c : Cmd) (f : Option Bytes) (rid : Nat) : Fr w (w.procData ct c f rid) :=
-  ⟨by simp, by simp, by simp, fun _ => by simp, ⟨[], by simp⟩, fun h => by simpa using h⟩
-
-theorem Fr.pushLockAof (w : W) (rid flag : Nat) : Fr w (w.pushLockAof rid flag) := by
-  obtain ⟨a1, a2, a3, a4, a5, _, _, a8⟩ := pushLockAof_frame w rid flag
-  exact ⟨a3, a4, a5, a8, ⟨[], by simp [a1]⟩, fun h => by rw [a2]; exact h⟩
-theorem Fr.pushLockAofN (n : Nat) (w : W) (rid : Nat) : Fr w (W.pushLockAofN n w rid) := by
-  obtain ⟨a1, a2, a3, a4, a5, _, _, a8⟩ := pushLockAofN_frame n w rid
-  exact ⟨a3, a4, a5, a8, ⟨[], by simp [a1]⟩, fun h => by rw [a2]; exact h⟩
-theorem Fr.pushUnLockAof (w : W) (rid : Nat) (lc : Cmd) (fa ia : Bool) (flag : Nat) : Fr w (w.pushUnLockAof rid lc fa ia flag) := by
-  obtain ⟨a1, a2, a3, a4, a5, _, _, a8⟩ := pushUnLockAof_frame w rid lc fa ia flag
-  exact ⟨a3, a4, a5, a8, ⟨[], by simp [a1]⟩, fun h => by rw [a2]; exact h⟩
-theorem Fr.addTimeOut (w : W) (rid : Nat) : Fr w (w.addTimeOut rid) := by
-  obtain ⟨a1, a2, a3, a4, a5, _, _, a8⟩ := addTimeOut_frame w rid
-  exact ⟨a3, a4, a5, fun _ => a8, ⟨[], by simp [a1]⟩, fun h => by rw [a2]; exact h⟩
-theorem Fr.addExpried (w : W) (rid : Nat) : Fr w (w.addExpried rid) := by
-  obtain ⟨a1, a2, a3, a4, a5, _, _, a8⟩ := addExpried_frame w rid
-  exact ⟨a3, a4, a5, a8, ⟨[], by simp [a1]⟩, fun h => by rw [a2]; exact h⟩
-theorem Fr.removeLongT (w : W) (rid : Nat) : Fr w (w.removeLongT rid) := by
-  obtain ⟨a1, a2, a3, a4, _, _⟩ := removeLongT_frame w rid
-  exact ⟨a3, by rw [a4], by rw [a4], fun _ => by rw [a4], ⟨[], by simp [a1]⟩, fun h => by rw [a2]; exact h⟩
-theorem Fr.removeLongE (w : W) (rid : Nat) : Fr w (w.removeLongE rid) := by
-  obtain ⟨a1, a2, a3, a4, _, _⟩ := removeLongE_frame w rid
-  exact ⟨a3, by rw [a4], by rw [a4], fun _ => by rw [a4], ⟨[], by simp [a1]⟩, fun h => by rw [a2]; exact h⟩
-theorem Fr.newLock (w : W) (c : Cmd) (d : Option Bytes) : Fr w (w.newLock c d).1 := by
-  obtain ⟨a1, a2, a3, a4, a5, _, _, a8, _⟩ := newLock_frame w c d
-  exact ⟨a3, a4, a5, fun _ => a8, ⟨[], by simp [a1]⟩, fun h => by rw [a2]; exact h⟩
-theorem Fr.addLock (w : W) (rid : Nat) : Fr w (w.addLock rid) := by
-  obtain ⟨a1, a2, a3, a4, _, _⟩ := addLock_frame w rid
-  exact ⟨a3, by rw [a4], by rw [a4], fun _ => by rw [a4], ⟨[], by simp [a1]⟩, fun h => by rw [a2]; exact h⟩
+  exact (FQ.modK w _ (by simp) (by simp) (by simp)).fr.trans (Fr.when _ _ _ (Fr.freeCheck _ _))
 
 /-! ### composite helpers -/
 
@@ -77,50 +185,28 @@ theorem Fr.grant (w : W) (rid : Nat) : Fr w (w.grant rid) := by
   unfold W.grant
   simp only []
   refine Fr.trans ?_ (Fr.reply _ _ _ _ _)
-  refine Fr.trans ?_ (Fr.ctr _ _)
-  refine Fr.trans ?_ (Fr.setK _ _ (by simp))
-  refine Fr.trans ?_ (Fr.addExpried _ _)
-  refine Fr.trans ?_ (Fr.setK _ _ (by simp))
+  refine Fr.trans ?_ (FQ.ctr _ _).fr
+  refine Fr.trans ?_ (FQ.ref _ _).fr
+  refine Fr.trans ?_ (FQ.addExpried _ _).fr
+  refine Fr.trans ?_ (FQ.modR _ _ _).fr
   refine Fr.trans ?_ (Fr.procData _ _ _ _ _)
-  refine Fr.trans ?_ (Fr.setK _ _ rfl)
-  exact Fr.addLock _ _
+  exact (FQ.addLock _ _).fr.trans (Fr.modLocked _ _ rfl)
 
-theorem Fr.grantNoHold (w : W) (rid : Nat) : Fr w (w.grantNoHold rid).1 := by
+theorem Fr.grantNoHold (w : W) (rid : Nat) : Fr w (w.grantNoHold rid) := by
   unfold W.grantNoHold
   simp only []
-  refine Fr.trans ?_ (Fr.setK _ _ (by simp))
-  split
-  · split
-    · exact (Fr.procData _ _ _ _ _).trans (Fr.pushLockAof _ _ _)
-    · exact Fr.procData _ _ _ _ _
-  · exact Fr.refl _
-
-theorem Fr.updateLocked (w : W) (rid : Nat) (c : Cmd) : Fr w (w.updateLocked rid c) := by
-  unfold W.updateLocked
-  simp only []
-  refine Fr.trans ?_ (Fr.setK _ _ (by simp))
-  split
-  · refine Fr.trans ?_ (Fr.setK _ _ (by simp))
-    refine Fr.trans ?_ (Fr.addExpried _ _)
-    refine Fr.trans ?_ (Fr.removeLongE _ _)
-    exact Fr.setK _ _ (by simp)
-  · exact Fr.setK _ _ (by simp)
+  refine Fr.trans ?_ (FQ.modR _ _ _).fr
+  exact (Fr.procData _ _ _ _ _).trans (Fr.when _ _ _ (FQ.pushLockAof _ _ _).fr)
 
 theorem Fr.wakeOne (w : W) (rid : Nat) : Fr w (w.wakeOne rid) := by
   unfold W.wakeOne
   simp only []
-  have h2 : Fr w (if ({ w with k := w.k.modRec rid fun r => { r with timeouted := true } } : W).k.getR rid |>.tLong
-      then ({ w with k := w.k.modRec rid fun r => { r with timeouted := true } } : W).removeLongT rid
-      else { w with k := w.k.modRec rid fun r => { r with timeouted := true } }) := by
-    split
-    · exact (Fr.setK w _ (by simp)).trans (Fr.removeLongT _ _)
-    · exact Fr.setK w _ (by simp)
+  have h2 : Fr w (((w.modR rid fun r => { r with timeouted := true }).dropLongT rid).ctr fun c => { c with waitCount := c.waitCount - 1 }) :=
+    ((FQ.modR w rid _).trans ((FQ.dropLongT _ _).trans (FQ.ctr _ _))).fr
   refine Fr.trans h2 ?_
   split
-  · exact (Fr.ctr _ _).trans (Fr.grant _ _)
-  · refine Fr.trans ?_ (Fr.reply _ _ _ _ _)
-    refine Fr.trans ?_ (Fr.ctr _ _)
-    exact (Fr.ctr _ _).trans (Fr.grantNoHold _ _)
+  · exact Fr.grant _ _
+  · exact (Fr.grantNoHold _ _).trans ((FQ.ctr _ _).fr.trans (Fr.reply _ _ _ _ _))
 
 theorem Fr.wakePass (fuel : Nat) (w : W) : Fr w (W.wakePass fuel w) := by
   induction fuel generalizing w with
@@ -128,17 +214,13 @@ theorem Fr.wakePass (fuel : Nat) (w : W) : Fr w (W.wakePass fuel w) := by
   | succ n ih =>
     unfold W.wakePass
     simp only []
-    have h1 : Fr w { w with k := w.k.getWaitLock.1 } := Fr.setK w _ (by simp)
+    have h1 : Fr w (w.modK (·.getWaitLock.1)) := (FQ.modK w _ (by simp) (by simp) (by simp)).fr
     split
-    · exact h1.trans ((Fr.setK _ _ rfl).trans (Fr.removeIfZero _))
+    · exact h1.trans ((FQ.modK _ clearWaited rfl rfl rfl).fr.trans (Fr.removeIfZero _))
     · split
       · exact h1
       · exact h1.trans ((Fr.wakeOne _ _).trans (ih _))
 
-theorem Fr.wake (w : W) : Fr w w.wake := by
-  unfold W.wake
-  split
-  · exact Fr.wakePass _ _
-  · exact Fr.refl _
+theorem Fr.wake (w : W) : Fr w w.wake := Fr.when _ _ _ (Fr.wakePass _ _)
 
 end Slock.Engine2
